@@ -27,10 +27,10 @@ CLAIMS = {
  "C19": dict(design="5/C19", tech=E1 + "; symbolic id-membership bits",
    text="Every suite tree up to a node/depth bound (pre-order opcode lists; 4 leaf kinds incl. duplicate ids, 4 suite kinds, empty suites) is built and iterate_tests / sorted_tests / filter_by_ids (ids as a container with symbolic membership bits) / TestProgram --list and --load-list (in-process) are compared with reference flatten, sort and filter written from the statement; exhaustive within the bound.",
    note="TestProgram is driven in-process with a stub loader; a real temporary file carries the id list."),
- "C17": dict(design="5/C17", tech=E1,
+ "C17": dict(e2=True, design="5/C17", tech=E1,
    text="Every well-formed history of <=4 (quick) / <=6 (thorough) calls over {startTestRun, startTest, tags(+/-a), tags(+/-b), startTest-less addSkip+stopTest, outcome+stopTest} is replayed into 8 reporters (TestResult, ExtendedToOriginalDecorator over three flavours, ThreadsafeForwardingResult, MultiTestResult, Tagger, ExtendedToStreamDecorator->StreamToExtendedDecorator): current_tags after every call equals a reference scoped set, and the tags observed by the wrapped result / final status events at each outcome equal the reporter's; PlaceHolder tag replay. Exhaustive within the bound.",
    note="Two tags only in E1; the wrapped extended result is a double that records its current tags at each outcome."),
- "C18": dict(design="5/C18", tech=E1,
+ "C18": dict(e2=True, design="5/C18", tech=E1,
    text="Routing: every rule set of <=3 (quick) / <=4 rules with distinct keys x fallback x event (route code, test id) is run on the real StreamResultRouter with identity tokens in all other fields; start/stop: every sequence of <=5/6 steps over {startTestRun, stopTestRun, add_rule +/- do_start_stop_run} x fallback mode; StreamToQueue push followed by consuming-rule pop (also nested) restores the original route code. Exhaustive within the bound.",
    note="Finite alphabets of route codes/ids in E1; duplicate keys are documented as undefined and excluded."),
  "C08": dict(design="5/C08", tech=E1,
@@ -42,7 +42,7 @@ CLAIMS = {
  "C10": dict(design="5/C10", tech=E1 + "; symbolic chunk bytes and timestamps",
    text="Event sequences (accounting alphabet length <=4/5; other final statuses, id re-use, two routes; attachments with symbolic chunk bytes; tags with symbolic timestamps; a joint alphabet varying all groups) are fed to StreamToDict, StreamSummary and StreamToExtendedDecorator together and compared with a reference accounting model written from the statement; exhaustive within the bounds.",
    note="'fail' may land in errors or failures (exactly one entry); 'exists' through StreamToExtendedDecorator is discarded by design; payload bytes symbolic only for binary mime types."),
- "C11": dict(design="5/C11", tech=E1,
+ "C11": dict(e2=True, design="5/C11", tech=E1,
    text="Every decorator tree up to a node/depth bound over {sink, StreamFailFast, StreamToQueue, TimestampingStreamResult, CopyStreamResult x1..3, StreamTagger (3 variants) x1..3} is fed status events (status x tags container incl. frozenset x timestamp x route code x symbolic chunk) and short event sequences; each leaf's log is compared with the composition of one-line specs along its path; the caller's tag container is snapshotted before/after. Exhaustive within the bound.",
    note="Clock stubbed by replacing testtools.testresult.real.datetime; sinks are the recording doubles."),
  "C12": dict(design="5/C12", tech=E1 + "; symbolic schedule over a deterministic scheduler, fault position as a selector",
@@ -84,7 +84,7 @@ for pid in props:
         "engine": "E1-crosshair" + ("+E2-zproxy" if c.get("e2") else ""),
         "level_claimed": {"category": "other", "text": c["text"], "design_ref": "DESIGN.md " + c["design"]},
         "level_note": c["note"],
-        "technique": c["tech"],
+        "technique": c["tech"] + ("; plus zproxy lemmas over unbounded sets/strings (z3 / cvc5)" if c.get("e2") else ""),
     })
 na = [{"property_id": p, "reason": CLAIMS.get(p, {}).get("na", NA_PENDING)} for p in props if p not in CLAIMS]
 m = {
@@ -95,6 +95,8 @@ m = {
  "engines": [
   {"name": "E1-crosshair", "path": "vf/engine.py", "serves_properties": sorted(CLAIMS),
    "kind_free_text": "CrossHair 0.0.110 in-process (z3 5.1): per-path symbolic execution of harness + real testtools code, sharded over 16 processes; twins, fidelity self-check, native replay"},
+  {"name": "E2-zproxy", "path": "vf/zproxy.py", "serves_properties": ["C11", "C17", "C18"],
+   "kind_free_text": "proxy-based symbolic execution of the real functions on SMT terms (z3 sets over an uninterpreted sort, cvc5 strings); fork-and-replay explorer; final assertion unsat per path; reachability twins and a negative control; counterexamples concretised and replayed natively"},
  ],
  "checks": checks,
  "not_applicable": na,
